@@ -341,7 +341,10 @@ FlushBegin(ag, gk, as, tick) ==
                                 \* ing: the first hand-over for the group key since its last flush began
                                 !.ing = Drop(@, {gk}),
                                 !.mby = LET allInh == names # {} /\ \A a \in names \cap Alerts : InhibitedAt(a, now)
-                                            prev == IF gk \in DOMAIN @ THEN @[gk] ELSE [cur |-> {}, prev |-> {{}}, t |-> now, known |-> FALSE, stale |-> FALSE]
+                                            \* a group seen for the first time (created, or re-created after its predecessor was
+                                            \* destroyed and its marker deleted by the maintenance sweep - or not yet): unknown
+                                            prev == IF gk \in DOMAIN @ /\ ag \in cancd.seen THEN @[gk]
+                                                    ELSE [cur |-> IF gk \in DOMAIN @ THEN @[gk].cur ELSE {}, prev |-> {{}}, t |-> now, known |-> FALSE, stale |-> FALSE]
                                         IN \* the time stages run after the inhibition stage: they are skipped
                                            \* when that one leaves nothing (the marker keeps its old value)
                                            IF allInh THEN Put(@, gk, [prev EXCEPT !.stale = prev.known /\ prev.cur # MutedByAt(gk, tick)])
